@@ -5,49 +5,28 @@ import (
 	"testing"
 	"time"
 
-	"github.com/emmansun/gmsm/pkcs7"
 	"verifh/mon"
 )
 
-func TestDbgChain(t *testing.T) {
+func TestDbgTiming(t *testing.T) {
 	w, err := getWorld()
 	if err != nil {
 		t.Fatal(err)
 	}
-	x := &mon.Ctx{Prop: "C16", Workload: "dbg", Seed: 1, Tier: "quick", Shards: 1, Only: -1}
+	x := &mon.Ctx{Prop: "C16", Workload: "c16.signed.alter", Seed: 1, Tier: "quick", Shards: 1, Only: -1}
 	x.Open("/tmp/c16/dbg.jsonl", "")
-	c := x.Begin("dbg")
-	s := signedSpec{api: "pkcs7", sm: true, n: 1, vpath: "chain", signers: []signerSpec{{kind: kSM2, iss: iSM2Root, digest: "sm3", noAttr: true}}}
-	b, err := buildSigned(c, w, s)
-	if err != nil {
-		t.Fatal(err)
-	}
-	region := signedRegions(b.der)
-	root := parseOne(b.der)
-	certs := root.child(1, 0, 3)
-	fmt.Printf("certs at %d..%d tag %x; cert0 %d tbs %d\n", certs.off, certs.end, certs.tag0, certs.child(0).off, certs.child(0, 0).off)
-	for i, k := range certs.child(0, 0).kids {
-		fmt.Printf(" tbs field %d: off %d end %d tag %x\n", i, k.off, k.end, k.tag0)
-	}
-	alt := append([]byte{}, b.der...)
-	for pos := 55; pos < 75; pos++ {
-		for k, f := range subst {
-			ob := alt[pos]
-			alt[pos] = f(ob)
-			p, err := pkcs7.Parse(alt)
-			if err == nil {
-				err = p.VerifyWithChain(w.trust)
-				if err == nil {
-					fmt.Printf("pos %d %s subst %d verifies; ncerts %d rawlen %d (orig %d) nsigners %d\n", pos, region(pos), k, len(p.Certificates), len(p.Certificates[0].Raw), len(b.ees[0].cert.Raw), len(p.Signers))
-					d, _ := pkcs7.VerifBER2DER(alt)
-					fmt.Printf("   alt %x\n   der %x\n", alt[60:75], d[60:75])
-					fmt.Printf("   tail raw %x\n", p.Certificates[0].Raw[len(b.ees[0].cert.Raw)-4:])
-					now := time.Now()
-					_, e2 := p.Certificates[0].Verify(smxOpts(w, now))
-					fmt.Println("   direct chain verify:", e2, " checkSigFrom:", p.Certificates[0].CheckSignatureFrom(w.rootRSA))
-				}
-			}
-			alt[pos] = ob
+	for i := 0; i < 100; i++ {
+		c := x.Begin("dbg")
+		lens := sweepLens
+		s := genSigned(c.R, i, lens)
+		b, err := buildSigned(c, w, s)
+		if err != nil {
+			t.Fatal(err)
 		}
+		t0 := time.Now()
+		sweepSigned(c, b)
+		d := time.Since(t0)
+		fmt.Printf("%3d %6.2fs %5d bytes %6.1f us/mutant  %v\n", i, d.Seconds(), len(b.der), float64(d.Microseconds())/float64(4*len(b.der)), s)
+		c.End()
 	}
 }
